@@ -14,6 +14,7 @@ require (
 	k8s.io/apimachinery v0.30.11
 	k8s.io/client-go v0.30.11
 	pgregory.net/rapid v1.3.0
+	sigs.k8s.io/yaml v1.4.0
 )
 
 require (
@@ -104,7 +105,6 @@ require (
 	sigs.k8s.io/kustomize/api v0.13.5-0.20230601165947-6ce0bf390ce3 // indirect
 	sigs.k8s.io/kustomize/kyaml v0.14.3-0.20230601165947-6ce0bf390ce3 // indirect
 	sigs.k8s.io/structured-merge-diff/v4 v4.4.1 // indirect
-	sigs.k8s.io/yaml v1.4.0 // indirect
 )
 
 replace github.com/flant/shell-operator => /repo
